@@ -179,15 +179,36 @@ func contractPhase(cr *checkResult, w *symex.World, update bool) {
 	defer os.RemoveAll(scratch)
 	outs := symex.Discharge(obls, symex.SolveOpts{TimeoutMs: timeout, Dir: scratch, Parallel: 12, RequireTwo: cr.tier == "thorough"})
 	known := loadKnownFindings()
+	canaryOK := map[string]bool{}
+	canaryOut := map[string]*symex.Outcome{}
+	defer func() {
+		for fn, ok := range canaryOK {
+			if ok {
+				cr.vacuity["ok"]++
+			} else {
+				cr.vacuity["failed"]++
+				cr.violations = append(cr.violations, writeReplay(cr, canaryOut[fn], "vacuity guard: no normal return of "+fn+" is reachable (every postcondition would hold vacuously)"))
+			}
+		}
+	}()
 	var names []string
 	for _, o := range outs {
 		ob := o.Obl
 		cr.solverMs += o.Ms
 		if ob.MustFail {
-			// vacuity guards
+			// vacuity guards: the precondition must be satisfiable, and at least one return reachable
+			if ob.Kind == "canary" {
+				if o.Result != "proved" {
+					canaryOK[ob.Func] = true
+				} else if _, seen := canaryOK[ob.Func]; !seen {
+					canaryOK[ob.Func] = false
+					canaryOut[ob.Func] = o
+				}
+				continue
+			}
 			if o.Result == "proved" {
 				cr.vacuity["failed"]++
-				cr.violations = append(cr.violations, writeReplay(cr, o, "vacuity guard proved: the function has no reachable normal return or a contradictory precondition"))
+				cr.violations = append(cr.violations, writeReplay(cr, o, "vacuity guard proved: contradictory precondition"))
 			} else {
 				cr.vacuity["ok"]++
 			}
